@@ -7,5 +7,11 @@ git apply "$1"
 cmake --build _build -- -k 0 >/dev/null 2>&1 || true
 out=$(ctest --test-dir _build -j8 --timeout 900 2>&1 | tail -4)
 echo "$out" | grep -q "100% tests passed" || { echo "SUITE FAILED"; echo "$out"; git checkout -- .; exit 1; }
+# the build directory of /repo holds the baseline suite only; the full suite (mock tests included) is built and run in a
+# scratch worktree so that a repair never breaks a repository test outside the baseline either
+W=/tmp/applyfix-full-$$; git worktree add --detach $W HEAD >/dev/null 2>&1; git -C $W apply "$1"
+( cd $W && cmake -G Ninja -B _build -S . >/dev/null 2>&1 && (cmake --build _build -- -k 0 >/dev/null 2>&1; true) )
+full=$(ctest --test-dir $W/_build -j8 --timeout 900 2>&1 | tail -4); git worktree remove --force $W
+echo "$full" | grep -q "100% tests passed" || { echo "FULL SUITE FAILED"; echo "$full"; git checkout -- .; exit 1; }
 git commit -qa -F "$2"
 git log --oneline | head -1
